@@ -47,7 +47,7 @@ def gen_single(rng, profile="general"):
     T = int(rng.integers(Tmin, Tmin + 130))
     flavor = wd.FLAVORS[int(rng.integers(0, len(wd.FLAVORS)))]
     if profile == "hostile":
-        flavor = ["uniform_scale", "sensor_scale", "const_sensor", "dup_rows", "corr", "sensor_scale"][int(rng.integers(0, 6))]
+        flavor = ["uniform_scale", "sensor_scale", "const_sensor", "dup_rows", "corr", "sensor_scale", "baseline"][int(rng.integers(0, 7))]
     if profile == "plain":
         flavor = "plain"
     d = dict(gen="regime", seed=int(rng.integers(0, 2 ** 31)), T=T, N=N, n_reg=n_reg, seg=int(rng.integers(8, 40)),
@@ -77,6 +77,7 @@ def gen_single(rng, profile="general"):
         case["eps"] = 0.0 if rng.random() < 0.8 else case["eps"]
     if case["eps"] > 0 and rng.random() < 0.5:
         case["data"]["flavor"] = "plain"
+    case["biased_form"] = ["bool", "bool", "np.bool", "int"][int(rng.integers(0, 4))]
     if rng.random() < 0.15:
         # real multi-process pool; the first rounds' tasks are delayed so that they complete in reverse submission order
         K_ = case["K"]
